@@ -77,6 +77,10 @@ func (qpc *QuotaPreemptionContext) tryPreemption() {
 		}
 		return
 	}
+	// nothing to preempt (any more): the usage could have dropped below the new maximum since the change
+	if qpc.preemptableResource.IsEmpty() {
+		return
+	}
 	leafQueues := make(map[*Queue]*QuotaPreemptionContext)
 	getChildQueuesPreemptableResource(qpc.queue, qpc.preemptableResource, leafQueues)
 
